@@ -614,6 +614,36 @@ func c05StaticStructural(c *Ctx) {
 	}
 }
 
+// nastyValues are written into every cell of one column at a time (every column of every file).
+var nastyValues = []string{"1:2:3:4", "::::", ":", "1::", "1:2:3:4:5:6:7:8:9", "10:00:00:00", "-", "+", ".", "e", "1e309", "-1e-999", "NaN", "Inf", "0x10", "١٢:٣٤:٥٦", "\u00a0",
+	"99999999999999999999", "-99999999999999999999", "99999999999999999999:99:99", "2024-01-01", "20240230", "00000000", "99999999", " 1 ", "1 2", "\t", "\x7f", strings.Repeat("9", 400)}
+
+// c05NastyCells: one column of one file gets a nasty value in all rows (or in the first, or the
+// last row only); every column x every value x 3 placements.
+func c05NastyCells(c *Ctx) {
+	m := genStaticFeedN(c, false, baseCounts, nil, nil)
+	var cols [][2]string
+	for _, t := range m.Tables {
+		for _, col := range t.Cols {
+			cols = append(cols, [2]string{t.File, col})
+		}
+	}
+	ci := c.Free("column", len(cols))
+	v := nastyValues[c.Free("value", len(nastyValues))]
+	where := c.Free("rows", 3)
+	t := m.t(cols[ci][0])
+	for r := range t.Rows {
+		if where == 0 || (where == 1 && r == 0) || (where == 2 && r == len(t.Rows)-1) {
+			t.set(r, cols[ci][1], v)
+		}
+	}
+	b := renderFeed(m, presentation{})
+	c.Input(hash64(string(b)), true, func() string { return fmt.Sprintf("%s.%s = %q (rows: %d)", cols[ci][0], cols[ci][1], v, where) })
+	if c05ParseStatic(c, b, 0) {
+		c.Witness("accepted")
+	}
+}
+
 var csvAlphabet = []byte{'a', '1', ',', '"', '\n', '\r', ' ', ':'}
 
 func c05CsvBodies(maxLen int) Harness {
@@ -673,7 +703,7 @@ func init() {
 		ID:    "C05",
 		Level: "fault_enumeration",
 		Rule: "realtime: all byte strings <= 2 (thorough 3) bytes and all strings <= 4 (thorough 5) over a 20-byte wire alphabet in 4 framings (raw, after a valid header, inside an entity, inside a trip update) x 3 extension configurations; semantically malformed messages within k deviations (quick 2, thorough 3) x all 29 extension configurations; every truncation and every single-byte substitution (15 values) of 7 valid seed messages x 3 configurations; accessor sweep (getters, hashes, journals over 10 histories x 3 windows, CSV export) on every accepted result. " +
-			"static: structural faults per table (k <= 2 tables at once), all CSV bodies <= 4 (thorough 6) over an 8-character alphabet appended to each of the 10 files, every truncation and single-byte substitution of 2 (thorough 6) seed archives; accessor sweep (acyclicity, Root(), pointer walk). " +
+			"static: structural faults per table (k <= 2 tables at once), every column of every file x 29 nasty values (4-field and empty-field times, non-ASCII digits, huge / special numbers, impossible dates, control characters, a 400-digit number) x 3 row placements, all CSV bodies <= 4 (thorough 6) over an 8-character alphabet appended to each of the 10 files, every truncation and single-byte substitution of 2 (thorough 6) seed archives; accessor sweep (acyclicity, Root(), pointer walk). " +
 			"non-trivial = distinct inputs other than the empty string; oracle = no panic, no worker death, no 60 s stall",
 		Assumptions: []string{"resource use proportional to the decompressed input is out of scope", "a nil *ParseRealtimeOptions is API misuse, not an input", "panic signatures normalise numbers so that one defect is one finding"},
 		Scenarios: func(tier string) []*Scenario {
@@ -687,6 +717,7 @@ func init() {
 				{Name: "rt/semantic", Bound: k, Run: c05Semantic(c05AllConfigs())},
 				{Name: "rt/byte-faults", Bound: -1, Run: c05ByteFaults(rtSeeds, func(c *Ctx, b []byte, v int) bool { return c05ParseRT(c, b, c05ThreeConfigs[v]) }, 3)},
 				{Name: "static/structural", Bound: 2, Run: c05StaticStructural},
+				{Name: "static/nasty-cells", Bound: -1, Run: c05NastyCells},
 				{Name: fmt.Sprintf("static/csv-bodies<=%d", cl), Bound: -1, Run: c05CsvBodies(cl)},
 				{Name: "static/container-faults", Bound: -1, Run: c05ByteFaults(staticSeeds(ns), c05ParseStatic, 1)},
 			}
